@@ -41,9 +41,9 @@ class EvalInterp(Interp):
         raise Unrecognised(self.rule, f'value_compare called with {args!r}', self.mod.rel)
 
     def builtin_hook(self, name, args, e):
-        if name == 'isinstance' and args and isinstance(args[0], Sym) and args[0].kind == 'val' and len(args[0].args) > 3:
+        if name == 'isinstance' and args and isinstance(args[0], Sym) and args[0].kind == 'val' and len(args[0].args) > 2:
             from .atoms import CLASS_NAMES, INSTANCE_OF
-            atom = args[0].args[3]
+            atom = args[0].args[2]
             classes = [norm(x) for x in (e.args[1].elts if isinstance(e.args[1], ast.Tuple) else [e.args[1]])]
             for c in classes:
                 if c not in CLASS_NAMES:
